@@ -571,7 +571,7 @@ def load_dxt1_impl(
             pixels[offset] = 0
             pixels[offset + 1] = 0
             pixels[offset + 2] = 0
-            pixels[offset + 2] = 0xFF
+            pixels[offset + 3] = 0xFF
         return
 
     block_wid, mod = divmod(width, 4)
@@ -723,7 +723,7 @@ def load_dxt3(pixels: Array, data: ROView, width: int, height: int) -> None:
             pixels[offset] = 0
             pixels[offset + 1] = 0
             pixels[offset + 2] = 0
-            pixels[offset + 2] = 0xFF
+            pixels[offset + 3] = 0xFF
         return
 
     block_wid, mod = divmod(width, 4)
@@ -780,7 +780,7 @@ def load_dxt5(pixels: Array, data: ROView, width: int, height: int) -> None:
             pixels[offset] = 0
             pixels[offset + 1] = 0
             pixels[offset + 2] = 0
-            pixels[offset + 2] = 0xFF
+            pixels[offset + 3] = 0xFF
         return
 
     block_wid, mod = divmod(width, 4)
@@ -847,7 +847,7 @@ def load_ati2n(pixels: Array, data: ROView, width: int, height: int) -> None:
             pixels[offset] = 0
             pixels[offset + 1] = 0
             pixels[offset + 2] = 0
-            pixels[offset + 2] = 0xFF
+            pixels[offset + 3] = 0xFF
         return
 
     block_wid, mod = divmod(width, 4)
